@@ -30,8 +30,6 @@ Theorem C08_roc_flat_0 : forall p h x, roc_ref p h x = x -> x <> 0%R -> roc_spec
 Proof. exact roc_spec_flat. Qed.
 
 (* ---- refuted for four indicators (float instance of the model; the same inputs are replayed on the crate) ---- *)
-Definition last_out (ops : list fop) : list float :=
-  match last (snd (run FOps [] ops)) BDead with BOut o => o | _ => [] end.
 
 (* K3: EfficiencyRatio on a flat window: volatility 0, 0/0 *)
 Theorem C08_K3_er_flat_nan :
